@@ -236,4 +236,44 @@ pub fn mcopy(""")),
 
     // Try to give funds""",
       new="""    // Try to give funds""", expect=r'readonly:selfdestruct'),
+
+ # ---------------- C20
+ dict(id='C20-exec-anyone-miner', pid='C20', file='actors/init/src/lib.rs',
+      old="""            Type::Miner if rt.resolve_builtin_actor_type(caller) == Some(Type::Power) => true,""",
+      new="""            Type::Miner => true,""", expect=r'can_exec:miner-only-by-power'),
+ dict(id='C20-exec-evm-allowed', pid='C20', file='actors/init/src/lib.rs',
+      old="""            Type::Multisig | Type::PaymentChannel => true,""",
+      new="""            Type::Multisig | Type::PaymentChannel | Type::EthAccount => true,""", expect=r'can_exec:allowed-types'),
+ dict(id='C20-exec4-overwrite', pid='C20', file='actors/init/src/lib.rs',
+      old="""            if code_cid != placeholder_cid {
+                return Err(ActorError::forbidden(format!(
+                    "cannot replace an existing non-placeholder actor with code: {code_cid}"
+                )));
+            }""", new="""            let _ = placeholder_cid;""", expect=r'exec4:placeholder-only'),
+ dict(id='C20-id-reuse', pid='C20', file='actors/init/src/state.rs',
+      old="""            // With no delegated address, always create a new actor ID.
+            let new_id = self.next_id;
+            self.next_id += 1;""",
+      new="""            // With no delegated address, always create a new actor ID.
+            let new_id = self.next_id;""", expect=r'next_id'),
+ dict(id='C20-robust-overwrite', pid='C20', file='actors/init/src/state.rs',
+      old="""        let is_new = map.set_if_absent(robust_addr, id)?;
+        if !is_new {""", new="""        let is_new = map.set_if_absent(robust_addr, id)?;
+        if !is_new && delegated_addr.is_none() {""", expect=r'robust-address-fresh'),
+ dict(id='C20-eam-reserved-skip-id', pid='C20', file='actors/eam/src/lib.rs',
+      old="""    !addr.is_precompile() && !addr.is_id() && !addr.is_null()""",
+      new="""    !addr.is_precompile() && !addr.is_null()""", expect=r'can_assign_address:is_id'),
+ dict(id='C20-eam-resurrect-any', pid='C20', file='actors/eam/src/lib.rs',
+      old="""            // If it's a Placeholder, continue on to create it.
+            Some(Type::Placeholder) => {}""",
+      new="""            // If it's a Placeholder, continue on to create it.
+            Some(Type::Placeholder) | Some(Type::EthAccount) => {}""", expect=r'deploy-only-over-placeholder'),
+ dict(id='C20-nonce-after-send', pid='C20', file='actors/evm/src/interpreter/instructions/lifecycle.rs',
+      old="""    system.increment_nonce();
+
+    // Apply EIP-150""", new="""    // Apply EIP-150""", expect=r'evm:nonce-before-create|callers-present:System::increment_nonce'),
+ dict(id='C20-create2-salt-dropped', pid='C20', file='actors/eam/src/lib.rs',
+      old="""    EthAddress(hash_20(rt, &[&[0xff], &from.0[..], salt, &inithash].concat()))""",
+      new="""    let _ = salt;
+    EthAddress(hash_20(rt, &[&[0xff], &from.0[..], &inithash].concat()))""", expect=r'create2-formula'),
 ]
